@@ -1011,13 +1011,45 @@ func twoSectionsBody(c *mc.Ctx, item int) mc.Verdict {
 // restoreBody: "the dictionary stack is restored" — whatever the encrypted part
 // does to the dictionary stack (more begins than ends, more ends than begins)
 // the stack after the section is the one before `eexec`.
+var restoreOuters = []int{0, 1, 2, 15, 16, 17, 18}
+
 var restorePlains = []string{"", "end ", "end end ", "end end end ", "1 dict begin ", "1 dict begin 2 dict begin ", "end 1 dict begin ", "end end 1 dict begin /zz 1 def "}
 
 func restoreBody(c *mc.Ctx, item int) mc.Verdict {
 	np := len(restorePlains)
 	body := restorePlains[item%np]
 	cont := (item / np) % 4
-	outer := (item / np / 4) % 3 // extra dictionaries open when eexec is entered
+	outer := restoreOuters[(item/np/4)%len(restoreOuters)] // extra dictionaries open when eexec is entered
+	// the plaintext executed in the clear behind `systemdict begin`: if that
+	// overflows the dictionary stack (20 entries), so must the section
+	depth, overflow := 2+outer+1, 2+outer+1 > 20
+	for _, t := range strings.Fields(body) {
+		switch t {
+		case "begin":
+			depth++
+		case "end":
+			depth--
+		}
+		if depth > 20 {
+			overflow = true
+		}
+	}
+	if overflow {
+		p := plaintext{name: "dictstack:" + body, enc: "/inside 5 def " + body + "mark currentfile closefile\n"}
+		var pre strings.Builder
+		for i := 0; i < outer; i++ {
+			pre.WriteString("2 dict begin ")
+		}
+		prog := append([]byte(pre.String()), buildSection(p, cont, "\n", defaultBinPrefix, nil)...)
+		intp := postscript.NewInterpreter()
+		err := intp.Execute(bytes.NewReader(prog))
+		c.Step()
+		if err == nil || !strings.Contains(err.Error(), "dictstackoverflow") {
+			v := mc.Fail("C05:dictstack-restore:limit", fmt.Sprintf("%d extra dictionaries open, encrypted part `%s` (%s): the clear-text run overflows the dictionary stack, the section gives %v", outer, p.enc, contNames[cont], err))
+			return v
+		}
+		return mc.Pass("overflows-like-the-clear-text", true)
+	}
 	if strings.Count(body, "end ") > 1+outer {
 		// more `end`s than dictionaries above userdict: dictstackunderflow is correct
 		return mc.Pass("n/a:would-pop-userdict", false)
@@ -1247,8 +1279,8 @@ func main() {
 				Rule:     "item = (plaintext, container of 4, gap of 2, trailer of 4); choices: every offset from 8 bytes before `eexec` to 8 bytes after the first token following the encrypted part x {padding comment so that the 512-byte refill boundary falls there, source delivering exactly that many bytes first}; differential oracle; non-trivial = final state differs from a fresh interpreter's"})
 			fams = append(fams, mc.Family{Name: "dictstack-inside-section", Items: len(insideBodies) * 4 * len(insideOuters), Body: insideBody, Budget: budget,
 				Rule: "dictionaries opened before `eexec` (none; one or two fresh ones; systemdict; userdict; a fresh one then systemdict; systemdict twice; the same fresh one twice; systemdict then a fresh one) x encrypted part that closes 0..3 dictionaries, then opens none / a new one / an old one, then defines a key x 4 containers; a simulation of the dictionary stack (the one before eexec plus systemdict) says which dictionary receives the definition: afterwards the key must be known there and nowhere else, and the stack depth restored; cases that would close userdict are skipped; non-trivial = all others"})
-			fams = append(fams, mc.Family{Name: "dictstack-restore", Items: len(restorePlains) * 4 * 3, Body: restoreBody, Budget: budget,
-				Rule: "item = (what the encrypted part does to the dictionary stack: nothing, 1..3 extra `end`, 1..2 extra `begin`, mixtures) x container (binary, hex lower/upper/mixed) x 0..2 extra dictionaries open when eexec is entered; after the section the dictionary stack must be exactly the one before it (depth and contents: names defined in the outer dictionaries resolve again); non-trivial = every case"})
+			fams = append(fams, mc.Family{Name: "dictstack-restore", Items: len(restorePlains) * 4 * len(restoreOuters), Body: restoreBody, Budget: budget,
+				Rule: "item = (what the encrypted part does to the dictionary stack: nothing, 1..3 extra `end`, 1..2 extra `begin`, mixtures) x container (binary, hex lower/upper/mixed) x 0, 1, 2, 15..18 extra dictionaries open when eexec is entered (the last ones reach the limit of 20: the section must overflow exactly where the clear-text run does); after the section the dictionary stack must be exactly the one before it (depth and contents: names defined in the outer dictionaries resolve again); non-trivial = every case"})
 			fams = append(fams, mc.Family{Name: "prefix-byte-sweep", Items: 4 * 256, Body: prefixSweepBody, Budget: budget,
 				Rule: "item = (position 0..3, byte value 0..255): binary section whose ciphertext prefix is three hex digits and that byte; x 3 plaintexts x trailers; differential against the clear-text run; non-trivial = the prefix is legal for the binary form"})
 			fams = append(fams, mc.Family{Name: "two-sections-in-one-stream", Items: len(plaintexts) * len(plaintexts) * 16, Body: twoSectionsBody, Budget: budget,
